@@ -403,12 +403,12 @@ def _judge_reads(res, checks, bit, steps, k, when, fail):
             fail(what, steps, k, {"consumed_by": how, "read": when, "got": got, "expected": bit})
 
 
-def _session_with_ids(n_alloc, free_idx, role_order):
+def _session_with_ids(n_alloc, free_idx, role_order, nv=False):
     """a session whose live qubits have chosen virtual ids: allocate `n_alloc` qubits (ids 0..), measure the
     ones in `free_idx` destructively (their ids become free again: the next allocation — the ancilla of
     parity_meas — takes the LOWEST free id), and return the others in `role_order` (a permutation)"""
     from harness import pipeline_sv as P
-    s = P.Session(simulate=True, max_qubits=10)
+    s = P.Session(simulate=True, max_qubits=10, nv=nv)
     qs = s.qubits(n_alloc)
     for i in free_idx:
         qs[i].measure()
@@ -473,25 +473,36 @@ def oracle_role_permutations(ctx, res):
             for psi in inputs:
                 s = _session_with_ids(3 + len(free), free, list(perm))
                 judge("toffoli_gate", s, ["control1", "control2", "target"], psi, tof, tb.toffoli_gate)
+    # (2b) the same under the NV flavour: connection compiled with NVSubroutineTranspiler, controller decoding
+    # NV instructions; virtual id 0 (the electron) in EVERY role (control1 / control2 / target)
+    for perm in it.permutations(range(3)):
+        inputs = [np.eye(8, dtype=complex)[j] for j in (6, 7)] + [rand_state(rng, 3) for _ in range(n_rand)]
+        for psi in inputs:
+            s = _session_with_ids(3, [], list(perm), nv=True)
+            judge("toffoli_gate [NV transpiler]", s, ["control1", "control2", "target"], psi, tof, tb.toffoli_gate)
     # (3) parity_meas: data qubits in every id order; ancilla id below, between, above the data ids
     strings2 = ["XX", "ZZ", "XZ", "YX", "ZY"]
     strings3 = ["XYZ", "ZZI", "IXX", "YIZ"]
     histories = [(2, [], "above"), (3, [0], "below"), (3, [1], "between"),
                  (3, [], "above"), (4, [0], "below"), (4, [1], "between"), (4, [2], "between")]
-    for n_alloc, free, where in histories:
+    # under the NV transpiler only histories in which virtual id 0 is live when the CNOTs run (carbon-carbon
+    # gates borrow it): ancilla ON id 0 (carbon -> electron CNOTs) and ancilla above data qubits 0, 1(, 2)
+    histories = [(a, f, w, False) for a, f, w in histories] + \
+        [(3, [0], "below", True), (2, [], "above", True), (3, [], "above", True), (4, [0], "below", True)]
+    for n_alloc, free, where, nv in histories:
         n = n_alloc - len(free)
         for perm in it.permutations(range(n)):
             for bases in (strings2 if n == 2 else strings3):
                 negative = rng.random() < 0.5
                 if not ctx.thorough and rng.random() < (0.0 if n == 2 else 0.5):
                     continue
-                s = _session_with_ids(n_alloc, free, list(perm))
+                s = _session_with_ids(n_alloc, free, list(perm), nv=nv)
                 ids = [q.qubit_id for q in s.qs]
                 psi = rand_state(rng, n)
                 signed = (-1 if negative else 1) * pauli_matrix(bases)
                 res.evaluations += 1
-                res.count("oracle:roles:parity_meas:ancilla-" + where)
-                res.nontrivial.add(("roles", "parity", bases, negative, tuple(ids)))
+                res.count("oracle:roles:parity_meas:ancilla-" + where + (":nv" if nv else ""))
+                res.nontrivial.add(("roles", "parity", bases, negative, tuple(ids), nv))
                 try:
                     s.set_state(psi)
                     m = tb.parity_meas(s.qs, ("-" if negative else "") + bases)
@@ -513,7 +524,7 @@ def oracle_role_permutations(ctx, res):
                 except KeyError:
                     code_trace = "touches a qubit that is neither a data qubit nor the ancilla"
                 model_trace = ctx.driver.call({"op": "toolbox.parity", "bases": bases})["trace"]
-                if code_trace != model_trace:
+                if not nv and code_trace != model_trace:
                     res.disagreements.append({"stream": "parity-model-by-role",
                                               "input": {"bases": bases, "virtual_ids": ids, "ancilla": anc},
                                               "model": model_trace, "code": code_trace})
@@ -531,7 +542,9 @@ def oracle_role_permutations(ctx, res):
                                          "kf": None,
                                          "input": {"bases": ("-" if negative else "") + bases,
                                                    "virtual_ids_of_data_qubits_in_string_order": ids,
-                                                   "ancilla_virtual_id": anc, "history":
+                                                   "ancilla_virtual_id": anc,
+                                                   "flavour": "NV (compiler=NVSubroutineTranspiler)" if nv else "vanilla",
+                                                   "history":
                                                    f"allocate {n_alloc} qubits, measure+free {free}, then parity_meas",
                                                    "psi": fmt_state(psi), "detail": bad, "returned": m,
                                                    "post_state": fmt_state(post)}})
